@@ -77,7 +77,14 @@ def run(rep, tier, seed):
                    'dual-number derivative; poses unchanged' % (entries_a, ev_a), not fails_a, json.dumps(fails_a[:1], default=str)[:1500])
     rep.obligation('direct oracle (test) paired_optimisations: %d graphs, numerical vs analytic Jacobians, both converge, optima agree to 1e-5' % ev_b,
                    not fails_b, json.dumps(fails_b[:1], default=str)[:1500])
-    rep.cov['evaluations'] = corr['evaluations'] + ev_a + ev_b
+    ev_c, fails_c = oracle_fd.handwritten_edges(seed, 200 if quick else 5000)
+    rep.cov['oracle_tests']['handwritten_edges'] = {'edges': ev_c, 'failures': len(fails_c),
+                                                    'what': 'error functions computing IN PLACE on the arrays handed out by position / to_array() / copy() '
+                                                            '(range, 3-vertex midpoint, prior, shifted copy) x R2/R3/SE2/SE3'}
+    rep.obligation('direct oracle (test) handwritten_edges: %d user-style error-only edges (in-place arithmetic on what the pose accessors return): numerical '
+                   'Jacobians within 1e-4 of the derivative, poses bitwise unchanged by calc_error / calc_jacobians' % ev_c, not fails_c,
+                   json.dumps(fails_c[:1], default=str)[:1500])
+    rep.cov['evaluations'] = corr['evaluations'] + ev_a + ev_b + ev_c
     rep.cov['distinct_nontrivial'] = corr['agree'] + (ev_a - len(fails_a)) + conv_b
     rep.cov['rule'] = ('correspondence cases: family (distance, squared range, relative pose and prior in compact form built from the regenerated pose operators, '
                        '3-vertex midpoint, 3-vertex equal-spacing) x pose kinds (R2, R3, SE2, SE3, mixed where the family allows) x operands 50% typical / 30% '
@@ -95,6 +102,10 @@ def run(rep, tier, seed):
     rep.cov['samples'] = smp
     # ---- verdict
     broken = not (ok and corr_ok and not unsup and not missing)
+    if fails_c and not fails_a:
+        rep.violation('oracle_hand', dict(fails_c[0], what='an error-only custom edge written with the pose accessors gets wrong numerical Jacobians / moves its '
+                                                            'vertices, on this input', n_failures=len(fails_c)))
+        return
     if broken and not fails_a and not fails_b:
         ev2, en2, fails_a, _ = oracle_fd.fd_accuracy(seed + 1, 3000, fams)
         rep.cov['evaluations'] += ev2
@@ -128,6 +139,9 @@ def replay(p):
         got, f = oracle_fd.fd_accuracy_case(p['case'], exprs)
         print('entries checked: %d; %s' % (got, f['why'] if f else 'no failure'))
         return 1 if f else 0
+    if p.get('kind') == 'oracle_hand':
+        print(json.dumps({k: v for k, v in p.items() if k not in ('numeric', 'derivative')}, indent=1, default=str)[:2500])
+        return 1
     if p.get('kind') == 'oracle_opt':
         f = oracle_fd.paired_case(p['spec'])
         print(f['why'] if isinstance(f, dict) else 'no failure')
